@@ -48,8 +48,18 @@ import (
 
 const driverName = "fakedb"
 
+func errorf(format string, args ...any) error { return fmt.Errorf(format, args...) }
+
 func TestMain(m *testing.M) {
 	slog.SetDefault(slog.New(slog.DiscardHandler))
+	for _, a := range os.Args[1:] {
+		// a hand-started native fuzzing session (see FuzzC20) must not overwrite the evidence file
+		if strings.HasPrefix(a, "-test.fuzz=") || strings.HasPrefix(a, "-test.fuzzworker") {
+			if os.Getenv("VERIF_OUT") == "" {
+				_ = os.Setenv("VERIF_OUT", filepath.Join(os.TempDir(), fmt.Sprintf("verif-c20-fuzz-evidence-%d.json", os.Getpid())))
+			}
+		}
+	}
 	evid.Main(m, "C20", "fault_enumeration",
 		"artefacts: 4 small fakedb graphs (1-2 named graphs, 2-5 nodes, 1-4 relationships, shard size chosen so that phases roll over into 2 fragments) x codec {none,gzip,zstd}, each dumped with retriever.Dump (manifest timestamp pinned through retriever.WriteManifest), packed with WriteCollectionTar and WriteEncryptedCollectionArchive, plus ML-KEM-1024 key files written by WriteArchivePrivateKey/PublicKey. One mutation per case: byte substitution (xor mask != 0) at an offset, truncation to a length, appended garbage, fragment swap/duplication/removal/planted file, tar entry swap/duplication/removal/reorder, encrypted frame reorder/duplication/drop/retype/length edit, one structured manifest edit (counts +-1, digest edits, path -> absolute/parent/volume/backslash, codec and phase swaps, duplicated/dropped/reordered file entries, ...), generated tar streams with hostile entries (absolute, parent, volume, backslash names, symlinks, hard links, devices, FIFOs, directories, duplicates, size lies, PAX/GNU overrides) delivered plain and encrypted, mutated/wrong/malformed keys. Enumerated sweeps: quick = every offset of every file of the smallest dump directory, of its private key file and a strided pass over its tar and encrypted archive (stride phase derived from the seed) + rapid-sampled (artefact, offset) pairs; thorough = every offset of every artefact of every fixture with two masks per offset (one single-bit flip chosen by shard, one seed-derived mask) and every truncation length. Non-trivial = the mutation lands in bytes the reader actually consumes and interprets (dump directory: any manifest or fragment byte; tar: header blocks, payload bytes, the two end-of-archive blocks — not padding after a payload or bytes behind the end marker; encrypted archive: magic, header, frame headers, ciphertext, first appended byte; key file: the JSON envelope up to its closing brace; structured edits, frame edits, hostile streams and key substitutions always). Distinct = (fixture, artefact, mutation kind, offset or field) — the mask value is not part of the key.",
 		"fakedb stands in for a DAWGS driver with the PostgreSQL schema's relationship identity (graph,start,end,kind); its mutation log records every node/relationship write",
